@@ -10,6 +10,7 @@
 //! 2 on a tool error.
 
 mod exact;
+mod hist;
 mod minmax;
 mod moments;
 mod pairs;
@@ -138,6 +139,24 @@ fn main() {
             let seed: u64 = m.get("seed").and_then(|s| s.parse().ok()).unwrap_or(1);
             let n: usize = m.get("n").and_then(|s| s.parse().ok()).unwrap_or(1000);
             record::record_quantile(&m["trace"], seed, n, &mut r);
+            r
+        }
+        ("replay", Some("histogram")) => {
+            let vals = read_emitted(&m["input"]);
+            let want = hist::HWant { prop: m["prop"].clone() };
+            vals.par_iter()
+                .fold(Report::default, |mut r, v| {
+                    hist::process_line(v, &want, &mut r);
+                    r
+                })
+                .reduce(Report::default, Report::merge)
+        }
+        ("record", Some("histogram")) => {
+            let mut r = Report::default();
+            let seed: u64 = m.get("seed").and_then(|s| s.parse().ok()).unwrap_or(1);
+            let n: usize = m.get("n").and_then(|s| s.parse().ok()).unwrap_or(1000);
+            let len: usize = m.get("len").and_then(|s| s.parse().ok()).unwrap_or(10);
+            record::record_histogram(&m["trace"], seed, n, len, &mut r);
             r
         }
         _ => {
